@@ -2,6 +2,8 @@
 
 package local
 
+import vnd "github.com/buildbarn/bb-storage/internal/verifnd"
+
 // C06 H4 = C02 P4: both record array back ends; see zz_verif_c02_checksum.go
 // (the file is included for C02 only, so C06 has thin copies of the entry points
 // through the shared helpers in zz_verif_common_records.go).
@@ -10,3 +12,53 @@ func Verif_C06_H4_RecordRoundTrip() { verifScenarioRecordRoundTrip() }
 
 // H4b: the codec on a grid of concrete records (see verifScenarioRecordRoundTripGrid).
 func Verif_C06_H4b_RecordRoundTripGrid() { verifScenarioRecordRoundTripGrid() }
+
+// Verif_C06_H5_VolatileReferences: block references of the volatile block list. A
+// record written for block i carries (reference, hash seed) = BlockIndexToBlockReference(i).
+// After any number of later PushBacks and PopFronts, resolving that reference yields the
+// SAME physical block (index shifted by the releases) and the SAME hash seed - so the
+// record's checksum still validates - or nothing once the block has been released. (The
+// index Get lemma H2 assumes exactly this of its resolver.)
+func Verif_C06_H5_VolatileReferences() {
+	n := 1 + vnd.Choose(3)
+	alloc := &verifPAllocator{refuseAt: -1}
+	bl := &volatileBlockList{blockAllocator: alloc, oldestEpochID: vnd.U32()}
+	vnd.Assume(bl.oldestEpochID < 1<<31)
+	var phys []*verifPBlock
+	for j := 0; j < n; j++ {
+		sb := &verifPBlock{id: j}
+		phys = append(phys, sb)
+		bl.blocks = append(bl.blocks, volatileBlockInfo{block: sb, epochHashSeed: vnd.U64()})
+	}
+	i := vnd.Choose(n)
+	ref, seed := bl.BlockIndexToBlockReference(i)
+	pushes := vnd.Choose(3)
+	for k := 0; k < pushes; k++ {
+		vnd.Assert(bl.PushBack() == nil, "PushBack failed although the allocator works")
+	}
+	pops := vnd.Choose(n + 1)
+	for k := 0; k < pops; k++ {
+		bl.PopFront()
+	}
+	idx, seed2, ok := bl.BlockReferenceToBlockIndex(ref)
+	if i < pops {
+		vnd.Cover("h5-released")
+		vnd.Assert(!ok, "a reference into a released block still resolves")
+		return
+	}
+	vnd.Cover("h5-alive")
+	vnd.Assert(ok, "a reference into a block that is still in the list does not resolve")
+	vnd.Assert(idx == i-pops, "a reference resolves to another block than the one it was created for")
+	if ok && idx >= 0 && idx < len(bl.blocks) {
+		vnd.Assert(bl.blocks[idx].block == Block(phys[i]), "a reference resolves to another physical block")
+	}
+	vnd.Assert(seed2 == seed, "a reference resolves with another hash seed than the one its record was written with (the record's checksum would fail)")
+	if ref.BlocksFromLast > 0 {
+		vnd.Cover("h5-not-the-newest-block")
+	}
+}
+
+// Verif_C06_H6_PersistentReferences: the persistent block list as the index's reference
+// resolver: the finalizer's epoch bookkeeping decides which entries PopFront invalidates
+// ("releasing a block removes exactly the entries that point into it").
+func Verif_C06_H6_PersistentReferences() { verifScenarioPBLFinalizer() }
